@@ -31,7 +31,21 @@ pub fn adversarial(seed: u64, idx: usize, thorough: bool) -> (Vec<u8>, &'static 
     let mut rng = Rng::derive(seed, 0xc04a, idx as u64);
     let deep = if thorough { 100_000 } else { 5_000 };
     let deep_yaml = if thorough { 30_000 } else { 1_200 };
-    match idx % 16 {
+    match idx % 17 {
+        16 => {
+            // UTF-16/32 YAML whose UTF-8 re-encoding puts multi-byte characters on every
+            // alignment around the 8 KiB / 16 KiB / 32 KiB read sizes of the layers below
+            let boundary = *rng.pick(&[8192usize, 16384, 24576, 32768]);
+            let pad = boundary - 20 + (idx / 17) % 24;
+            let unit = *rng.pick(&["😀", "é", "中", "😀é", "a😀"]);
+            let text = format!("k: \"{}{}\"\n", "x".repeat(pad.saturating_sub(4)), unit.repeat(12));
+            if (idx / 17) % 3 == 2 {
+                // plain UTF-8 as well: libyaml itself keeps the lead bytes of a straddled character
+                return (corpus::boundary_yaml_text(idx / 17).into_bytes(), "reencoded_boundary");
+            }
+            let enc = crate::c07::ENCS[(idx / 17) % 4];
+            (enc.encode(&text, (idx / 68) % 2 == 0), "reencoded_boundary")
+        }
         0 => (crate::c18::nested(Fmt::Json, crate::c18::Shape::Arrays, deep), "deep_json_arrays"),
         1 => (crate::c18::nested(Fmt::Json, crate::c18::Shape::Maps, deep), "deep_json_maps"),
         // MessagePack nesting is cheap to refuse in every mode, so it always goes far
@@ -408,8 +422,8 @@ pub fn run(ctx: &Ctx) -> i32 {
     if thorough {
         fuzz_stage(ctx, "totality", 600, "C04", &mut acc);
     }
-    let rule = format!("{} cases in crash-isolated worker processes: 3/4 mixed corpus inputs (valid streams, mutants, splices, seeds, random bytes/tokens), 1/4 adversarial shapes (nesting to {} for JSON/MessagePack/TOML and {} for YAML, unclosed openers, declared lengths up to 2^32-1 on every str/bin/ext/array/map marker, alias bombs, lone anchors/aliases/tags, empty input, valid documents with a node the target must refuse, long scalars and wide collections, numeric edge literals, random bytes); every case x 5 source selections x 4 targets x [slice, reader under a random schedule] on the worker's 8 MiB main-thread stack with an 8 GiB address-space limit; plus a sample of adversarial inputs through the debug and release binaries; distinct non-trivial = distinct non-empty inputs", n, if thorough { 100000 } else { 5000 }, if thorough { 30000 } else { 1200 });
-    let mut f = Finish { ctx, level: "exploration", rule, assumptions: vec!["'never loops forever' is decided up to a budget: 120 s without progress in a batch, then 900 s alone".into(), "a dead worker is attributed to the case it had announced".into()], extra: serde_json::Map::new(), exhaustive: false, min_distinct: 1000, must_reach: vec![("cases_completed".into(), (n as u64) * 9 / 10), ("binary_sample_exit_0_or_1".into(), 50), ("class_huge_declared_length".into(), 10), ("class_alias_bomb".into(), 10)] };
+    let rule = format!("{} cases in crash-isolated worker processes: 3/4 mixed corpus inputs (valid streams, mutants, splices, seeds, random bytes/tokens), 1/4 adversarial shapes (nesting to {} for JSON/MessagePack/TOML and {} for YAML, unclosed openers, declared lengths up to 2^32-1 on every str/bin/ext/array/map marker, alias bombs, lone anchors/aliases/tags, empty input, valid documents with a node the target must refuse, long scalars and wide collections, numeric edge literals, UTF-16/32 YAML with multi-byte characters on every alignment around 8/16/24/32 KiB of re-encoded text, random bytes); every case x 5 source selections x 4 targets x [slice, reader under a random schedule] on the worker's 8 MiB main-thread stack with an 8 GiB address-space limit; plus a sample of adversarial inputs through the debug and release binaries; distinct non-trivial = distinct non-empty inputs", n, if thorough { 100000 } else { 5000 }, if thorough { 30000 } else { 1200 });
+    let mut f = Finish { ctx, level: "exploration", rule, assumptions: vec!["'never loops forever' is decided up to a budget: 120 s without progress in a batch, then 900 s alone".into(), "a dead worker is attributed to the case it had announced".into()], extra: serde_json::Map::new(), exhaustive: false, min_distinct: 1000, must_reach: vec![("cases_completed".into(), (n as u64) * 9 / 10), ("binary_sample_exit_0_or_1".into(), 50), ("class_huge_declared_length".into(), 10), ("class_alias_bomb".into(), 10), ("class_reencoded_boundary".into(), 10)] };
     if !acc.violations.is_empty() {
         f.must_reach.clear();
     }
